@@ -99,6 +99,8 @@ type ReqRecord struct {
 	Renew     bool
 	TGTCipher []byte // enc-part ciphertext of the TGT presented (TGS)
 	TGTRealm  string
+	HdrRealm  string // TGS: issuing realm and service name of the ticket in the PA-TGS-REQ, as labelled (set even when the request is refused)
+	HdrSName  string
 }
 
 type taskLog struct {
@@ -786,6 +788,9 @@ func (k *KDC) handleTGS(req *rk.KDCReq, rec *ReqRecord, l *taskLog, pt []Perturb
 	if err != nil {
 		return bad(rk.ErrGeneric, "PA-TGS-REQ AP-REQ undecodable: "+err.Error())
 	}
+	// recorded before any check can refuse the request: what was asked of which KDC
+	rec.Renew = req.Options&rk.Bit(rk.FlagRenew) != 0
+	rec.HdrRealm, rec.HdrSName = ap.Ticket.Realm, ap.Ticket.SName.String()
 	// the ticket must be a TGT for this realm's TGS: krbtgt/<this realm>, issued by ap.Ticket.Realm;
 	// only a renewal may present another ticket of this realm (RFC 4120 3.3.3.1)
 	var tgtKey rk.EncryptionKey
